@@ -1,34 +1,9 @@
-"""findings_C20.py — trigger predicates of the known findings of C20 (findings/C20.entries.json).
+"""findings_C20.py — trigger predicates of the known findings of C20.
 
-A failing case is attributed to F-C20-read-cycle only if (a) it is a hang, (b) the tree of files has a cycle of read
-cards, and (c) the same tree without the read cards that close a cycle is read without a hang: any other failure of
-that tree stays a violation."""
-import os
-import shutil
-
-
-_CONFIRMED = [0]
+F-C20-read-cycle (a file that is read from itself made read_input hang) was repaired by /repo commit 2963569
+(findings/C20.fixed.json).  Nothing is attributed to it any more: a hang on a cyclic tree is a violation again
+(regression cases corpus/C20/fixed-read-cycle.json, corpus/C20/cycle-two-files.json)."""
 
 
 def C20_read_cycle(case, params):
-    if case.get("kind") != "read-hangs":
-        return False
-    tree = case.get("case")
-    if not tree:
-        return False
-    from props import C20
-    if not C20.has_cycle(tree):
-        return False
-    cut = C20.without_cycles(tree)
-    if C20.has_cycle(cut):
-        return False
-    if _CONFIRMED[0] >= 2:      # (c) was confirmed twice in this run: (a) and (b) decide from here on
-        return True
-    scratch = f"/tmp/C20-trig-{os.getpid()}"
-    try:
-        _, fails, res, _ = C20.case_fails(cut, scratch, "t")
-    finally:
-        shutil.rmtree(scratch, ignore_errors=True)
-    ok = not res.get("timeout") and not any(f["kind"] == "read-hangs" for f in fails)
-    _CONFIRMED[0] += ok
-    return ok
+    return False
